@@ -7,7 +7,8 @@ For every edit of the property (sensitivity/edits.py) and every seeded change th
 check reports (seeded/MATRIX.json):  copy /repo to /tmp/archesens-XXXX, apply, `go build ./...`, run the property's quick
 check with ARCHE_REPO pointing at the copy, remove the copy.
   M edit / seeded change: the expected rule (resp. any rule) must report -> "fired", else "failed"
-  B edit: nothing may be reported -> "silent", else "failed"
+  B edit / behaviour-preserving refactoring patch (refactor/<name>/patch.diff, written by independent sub-agents):
+          nothing may be reported -> "silent", else "failed"
 Results go to evidence/sensitivity/<property>.json and are embedded in the evidence of a thorough run.
 The suite never changes a check's exit code; --selftest exits 1 if anything failed (my own acceptance gate).
 """
@@ -88,8 +89,32 @@ def do_seed(prop, seed):
         shutil.rmtree(d, ignore_errors=True)
 
 
+def do_refactor(prop, name):
+    label = "B: refactor/" + name
+    patch = os.path.join(VERIF, "refactor", name, "patch.diff")
+    d = scratch()
+    try:
+        p = subprocess.run(["patch", "-p1", "-s", "-i", patch], cwd=d, capture_output=True, text=True)
+        if p.returncode != 0:
+            return ("skipped", label, "patch no longer applies to the current tree")
+        ok, why = builds(d)
+        if not ok:
+            return ("skipped", label, "variant does not compile: " + why)
+        rc, reports = run_check(prop, d)
+        if rc != 0 or reports:
+            return ("failed", label, "behaviour-preserving refactoring raised (exit %d): " % rc + "; ".join("%s|%s" % (r[1], r[2][:80]) for r in reports[:3]))
+        return ("silent", label, "no report")
+    finally:
+        shutil.rmtree(d, ignore_errors=True)
+
+
 def suite(prop, jobs):
     tasks = [("edit", e) for e in EDITS if e["prop"] == prop]
+    rdir = os.path.join(VERIF, "refactor")
+    if os.path.isdir(rdir):
+        for name in sorted(os.listdir(rdir)):
+            if os.path.exists(os.path.join(rdir, name, "patch.diff")):
+                tasks.append(("refactor", name))
     mpath = os.path.join(VERIF, "seeded", "MATRIX.json")
     if os.path.exists(mpath):
         m = json.load(open(mpath))
@@ -101,7 +126,7 @@ def suite(prop, jobs):
     base_rules = set(r[1] for r in rep0)
     res = {"fired": [], "silent": [], "skipped": [], "failed": []}
     with cf.ThreadPoolExecutor(max_workers=jobs) as ex:
-        futs = [ex.submit(do_edit, t[1]) if t[0] == "edit" else ex.submit(do_seed, prop, t[1]) for t in tasks]
+        futs = [ex.submit(do_edit, t[1]) if t[0] == "edit" else ex.submit(do_refactor, prop, t[1]) if t[0] == "refactor" else ex.submit(do_seed, prop, t[1]) for t in tasks]
         for f in futs:
             kind, name, why = f.result()
             res[kind].append({"edit": name, "outcome": why})
